@@ -27,7 +27,7 @@ theorem parser_terminates_on_every_string (cc : CC) (s : List Nat) : parseAutosq
   parse_total cc s
 
 /-- The default schema of the library (BED3) declares three fields. -/
-theorem bed3_default_declares_three_fields : fieldCount asciiCC true (bedAutosql 0) = 3 := by decide +kernel
+theorem bed3_default_declares_three_fields : fieldCount asciiCC true Gen.BED3 = 3 := by decide +kernel
 
 /-- D8 (code as found): an unterminated `enum(` spins; repaired: a parse error. -/
 theorem unterminated_enum_diverges_as_found :
